@@ -10,7 +10,7 @@ RELAX = ['group_rate', 'period_rate', 'cap', 'rate', 'level_hi', 'level_lo', 'en
 def run(tier, seed):
     chk = CheckRun('C13', tier, seed)
     th = tier == 'thorough'
-    for tag, cfgs in [('coarse', fam.fam_coarse(thorough=True)), ('coarse_dst', fam.fam_coarse_dst()), ('periodic', fam.fam_periodic(thorough=True))]:
+    for tag, cfgs in [('coarse', fam.fam_coarse(thorough=True)), ('coarse_dst', fam.fam_coarse_dst()), ('coarse_discount', fam.fam_coarse_discount()), ('periodic', fam.fam_periodic(thorough=True))]:
         def make_real(cfg):
             return R.Real(cfg)
 
